@@ -66,6 +66,25 @@ def gen_scenarios(tier):
         scs.append(progs.scenario(len(scs) + 1, steps, exec_=ex, parallelism=rng.choice([0, 1, 4]),
                                   machprocs=rng.choice([1, 2, 4]) if ex == 'bigmachine' else 0,
                                   gomaxprocs=0, timeout_s=90))
+    # dedicated: a result with a combining shuffle is recomputed by one lane while another lane discards it
+    # (at most 3 discards, so no task can be lost 5 times in a row): the run must recompute, not fail
+    for k in range(10 if tier == 'quick' else 120):
+        g = progs.Gen(rng)
+        n = rng.choice([400, 1200, 3000])
+        i = g.add(progs.N('const', nshard=rng.choice([4, 8]), rows=[[rng.randrange(0, 50), rng.randrange(0, 9)] for _ in range(n)]), 'eo', 4)
+        j = g.add(progs.N(rng.choice(['reduce', 'reduce', 'reduce', 'fold']), **{'in': [i]}, f='slowsum'), 'bag', g.nodes[i]['nshard'])
+        base = {'nodes': g.nodes, 'out': j, 'taps': []}
+        g2 = progs.Gen(rng, nargs=1, argkinds=[('bag', g.nodes[i]['nshard'])])
+        a = g2.add(progs.N('arg', arg=0), 'bag', g.nodes[i]['nshard'])
+        m = g2.add(progs.N('map', **{'in': [a]}, f='inc'), 'bag', g.nodes[i]['nshard'])
+        use = {'nodes': g2.nodes, 'out': m, 'taps': []}
+        steps = [progs.step_run('b0', base), progs.step_scan('b0'), progs.step_discard('b0'),
+                 progs.step_par([[progs.step_run('u', use, ['b0']), progs.step_scan('u')],
+                                 sum([[{'do': 'sleep', 'as': '', 'res': '', 'args': [], 'n': rng.choice([2, 5, 10, 20])}, progs.step_discard('b0')]
+                                      for _ in range(rng.choice([2, 3]))], [])]),
+                 progs.step_run('u2', use, ['b0']), progs.step_scan('u2')]
+        scs.append(progs.scenario(len(scs) + 1, steps, exec_='local' if k % 3 else 'bigmachine', parallelism=1 if k % 2 else 2,
+                                  machprocs=1, timeout_s=90))
     return scs
 
 
